@@ -1,5 +1,6 @@
 import Unimock.Props.C01
 import Unimock.Model.Lifecycle
+import Unimock.Lemmas.Layout
 /-!
 # C18 — behaviour depends only on clauses and call history, not on incidental layout
 
@@ -118,5 +119,188 @@ theorem C18_methods_distinct (s s' : Shared α ρ) (m : MethodInfo) (a : α)
     (hm : ∀ fm, s.find m.id = some fm → fm.mode = .anyOrder) :
     (evalCall s m a).2 = (evalCall s' m a).2 :=
   C01_other_methods_irrelevant s s' m a hfb hf hm
+
+/-! ## the runtime reaches the method table only through lookups by method id -/
+
+/-- two shared states that agree on every lookup (the order of the table entries may differ) -/
+def SharedEquiv (s s' : Shared α ρ) : Prop :=
+  s.fallback = s'.fallback ∧ s.nextOrdered = s'.nextOrdered ∧ s.reasons = s'.reasons ∧ ∀ id, s.find id = s'.find id
+
+/-- forget the "which pattern was expected instead" hint of a wrong-order error (it is computed by
+    scanning the table and is the only thing `eval` derives from the table's entry order) -/
+def forgetHint : EvalOutcome ρ → EvalOutcome ρ
+  | .err (.callOrderNotMatched m o _) => .err (.callOrderNotMatched m o none)
+  | o => o
+
+theorem setPat_equiv (s s' : Shared α ρ) (h : SharedEquiv s s') (id i : Nat) (p : Pattern α ρ) :
+    SharedEquiv (s.setPat id i p) (s'.setPat id i p) := by
+  obtain ⟨h1, h2, h3, h4⟩ := h
+  refine ⟨h1, h2, h3, ?_⟩
+  intro id'
+  rw [find_setPat, find_setPat, h4]
+
+/-- **C18, evaluation depends on the table only through lookups.** Equivalent states give the same
+    outcome (up to the hint above) and equivalent successor states, for every call. Together with
+    `C18_assemble_layout_invariant`: rearranged clause lists behave identically on every history. -/
+theorem C18_eval_respects_equiv (s s' : Shared α ρ) (h : SharedEquiv s s') (m : MethodInfo) (a : α) :
+    forgetHint (evalCall s m a).2 = forgetHint (evalCall s' m a).2 ∧ SharedEquiv (evalCall s m a).1 (evalCall s' m a).1 := by
+  obtain ⟨fb, mk, no, rs⟩ := s
+  obtain ⟨fb', mk', no', rs'⟩ := s'
+  obtain ⟨h1, h2, h3, h4⟩ := h
+  simp only at h1 h2 h3
+  subst h1 h2 h3
+  have h0 : SharedEquiv (⟨fb, mk, no, rs⟩ : Shared α ρ) ⟨fb, mk', no, rs⟩ := ⟨rfl, rfl, rfl, h4⟩
+  unfold evalCall
+  rw [← h4 m.id]
+  cases hf : Shared.find (⟨fb, mk, no, rs⟩ : Shared α ρ) m.id with
+  | none =>
+    simp only
+    split
+    · exact ⟨rfl, h0⟩
+    · split
+      · exact ⟨rfl, h0⟩
+      · cases fb <;> exact ⟨rfl, h0⟩
+  | some fm =>
+    simp only
+    cases fm.mode with
+    | anyOrder =>
+      simp only
+      cases scan fm.pats a 0 with
+      | none => cases fb <;> exact ⟨rfl, h0⟩
+      | some r =>
+        obtain ⟨pi, t⟩ := r
+        cases t with
+        | noMatcher => exact ⟨rfl, h0⟩
+        | userPanic => exact ⟨rfl, h0⟩
+        | accept =>
+          simp only
+          cases fm.pats[pi]? with
+          | none => exact ⟨rfl, h0⟩
+          | some p => exact ⟨rfl, setPat_equiv _ _ h0 _ _ _⟩
+    | inOrder =>
+      simp only
+      have hb : SharedEquiv (⟨fb, mk, no + 1, rs⟩ : Shared α ρ) ⟨fb, mk', no + 1, rs⟩ := ⟨rfl, rfl, rfl, h4⟩
+      cases findForOrder fm.pats no with
+      | none => exact ⟨rfl, hb⟩
+      | some pi =>
+        simp only
+        cases fm.pats[pi]? with
+        | none => exact ⟨rfl, hb⟩
+        | some p =>
+          simp only
+          cases tryPat p a with
+          | none => exact ⟨rfl, hb⟩
+          | some t =>
+            cases t with
+            | noMatcher => exact ⟨rfl, hb⟩
+            | userPanic => exact ⟨rfl, hb⟩
+            | accept => exact ⟨rfl, setPat_equiv _ _ hb _ _ _⟩
+
+/-- run a whole history of calls through `evalCall`, collecting the outcomes -/
+def evalHistory (s : Shared α ρ) : List (MethodInfo × α) → Shared α ρ × List (EvalOutcome ρ)
+  | [] => (s, [])
+  | (m, a) :: rest =>
+    let r := evalCall s m a
+    let r' := evalHistory r.1 rest
+    (r'.1, r.2 :: r'.2)
+
+/-- **C18 for every history.** Equivalent states produce the same outcome list (up to the hint) and end
+    in equivalent states, whatever the sequence of calls. -/
+theorem C18_history_respects_equiv (s s' : Shared α ρ) (h : SharedEquiv s s') (calls : List (MethodInfo × α)) :
+    (evalHistory s calls).2.map forgetHint = (evalHistory s' calls).2.map forgetHint ∧
+      SharedEquiv (evalHistory s calls).1 (evalHistory s' calls).1 := by
+  induction calls generalizing s s' with
+  | nil => exact ⟨rfl, h⟩
+  | cons c rest ih =>
+    obtain ⟨m, a⟩ := c
+    have h1 := C18_eval_respects_equiv s s' h m a
+    have h2 := ih _ _ h1.2
+    simp only [evalHistory, List.map_cons]
+    exact ⟨by rw [h1.1, h2.1], h2.2⟩
+
+/-! ## clause layout -/
+
+theorem AsmEquiv.trans {a b c : Asm α ρ} (h1 : AsmEquiv a b) (h2 : AsmEquiv b c) : AsmEquiv a c :=
+  ⟨h1.1.trans h2.1, fun id => (h1.2 id).trans (h2.2 id)⟩
+
+theorem ResEquiv.trans {x y z : Except AsmError (Asm α ρ)} (h1 : ResEquiv x y) (h2 : ResEquiv y z) : ResEquiv x z := by
+  cases x <;> cases y <;> cases z <;> simp_all [ResEquiv]
+  exact AsmEquiv.trans h1 h2
+
+theorem assembleList_append (a : Asm α ρ) (xs ys : List (Except AsmError (Terminal α ρ))) :
+    assembleList a (xs ++ ys) = match assembleList a xs with
+      | .error e => .error e
+      | .ok a' => assembleList a' ys := by
+  induction xs generalizing a with
+  | nil => rfl
+  | cons x xs ih =>
+    cases x with
+    | error e => simp [assembleList]
+    | ok t =>
+      simp only [List.cons_append, assembleList]
+      cases a.push t with
+      | error e => rfl
+      | ok a' => exact ih a'
+
+/-- one admissible rearrangement: two neighbouring terminals of different methods, not both ordered,
+    change places (every reordering "of clauses that belong to different methods, keeping each method's
+    own pattern order and the relative order of ordered clauses" is a sequence of such steps) -/
+inductive LayoutEq : List (Terminal α ρ) → List (Terminal α ρ) → Prop
+  | refl (ts : List (Terminal α ρ)) : LayoutEq ts ts
+  | swap (pre post : List (Terminal α ρ)) (t1 t2 : Terminal α ρ) (h : Swappable t1 t2) (ts : List (Terminal α ρ))
+      (rest : LayoutEq (pre ++ t2 :: t1 :: post) ts) : LayoutEq (pre ++ t1 :: t2 :: post) ts
+
+/-- **C18, assembly does not depend on clause layout.** Rearranging terminals as allowed yields
+    assembler results that are both failures, or both succeed with the same running index and the same
+    entry for every method id — the same mock, since every later operation reaches the table only
+    through lookups by method id. -/
+theorem C18_assemble_layout_invariant (ts ts' : List (Terminal α ρ)) (h : LayoutEq ts ts') (a : Asm α ρ) :
+    ResEquiv (assembleList a (ts.map .ok)) (assembleList a (ts'.map .ok)) := by
+  induction h with
+  | refl ts => exact ResEquiv.refl _
+  | swap pre post t1 t2 hs ts rest ih =>
+    refine ResEquiv.trans ?_ ih
+    simp only [List.map_append, List.map_cons]
+    rw [assembleList_append, assembleList_append]
+    cases assembleList a (pre.map .ok) with
+    | error e => trivial
+    | ok a0 =>
+      simp only [assembleList]
+      have hc := push_comm a0 t1 t2 hs
+      unfold push2 at hc
+      cases h1 : a0.push t1 with
+      | error e1 =>
+        rw [h1] at hc
+        cases h2 : a0.push t2 with
+        | error e2 => trivial
+        | ok a2 =>
+          rw [h2] at hc; simp only at hc ⊢
+          cases h21 : a2.push t1 with
+          | error e => trivial
+          | ok a21 => rw [h21] at hc; exact hc.elim
+      | ok a1 =>
+        rw [h1] at hc
+        simp only at hc ⊢
+        cases h12 : a1.push t2 with
+        | error e =>
+          rw [h12] at hc
+          cases h2 : a0.push t2 with
+          | error e2 => trivial
+          | ok a2 =>
+            rw [h2] at hc; simp only at hc ⊢
+            cases h21 : a2.push t1 with
+            | error e' => trivial
+            | ok a21 => rw [h21] at hc; exact hc.elim
+        | ok a12 =>
+          rw [h12] at hc
+          cases h2 : a0.push t2 with
+          | error e2 => rw [h2] at hc; exact hc.elim
+          | ok a2 =>
+            rw [h2] at hc; simp only at hc ⊢
+            cases h21 : a2.push t1 with
+            | error e' => rw [h21] at hc; exact hc.elim
+            | ok a21 =>
+              rw [h21] at hc
+              exact assembleList_congr a12 a21 hc (post.map .ok)
 
 end Unimock
